@@ -229,7 +229,7 @@ func (h *baseHandler) handleBase64(args []string, argc int) ([]string, int, erro
 }
 
 func (h *baseHandler) handleAckCommand(argc int, args []string) {
-	if argc < 3 {
+	if argc < 3 || len(args) < 3 {
 		if !h.quiet {
 			h.sendln(h.serverMessages, dlog.Server.Warn(h.user,
 				"Unable to parse command", args, argc))
